@@ -299,16 +299,12 @@ func (c *Conn) GetNextActionFromByte(start int64) *NextActionInfo {
 
 	actions := c.Shapes.M[c.Context.URLRegex].Shape.Actions
 
-	if l := len(actions); l != 0 {
-		ind := sort.Search(len(actions),
-			func(i int) bool { return actions[i].getByte() >= start })
+	ind := sort.Search(len(actions),
+		func(i int) bool { return actions[i].getByte() >= start })
 
-		return c.GetNextActionFromIndex(int64(ind))
-	}
-
-	return &NextActionInfo{
-		ActionNext: false,
-	}
+	// The read locks are held: do not go through GetNextActionFromIndex, which
+	// takes them again (a writer waiting in between blocks the second RLock).
+	return nextActionFromIndex(actions, int64(ind))
 }
 
 // GetNextActionFromIndex takes in an index and returns the first action after the index that
@@ -326,27 +322,27 @@ func (c *Conn) GetNextActionFromIndex(ind int64) *NextActionInfo {
 	c.Shapes.M[c.Context.URLRegex].RLock()
 	defer c.Shapes.M[c.Context.URLRegex].RUnlock()
 
-	actions := c.Shapes.M[c.Context.URLRegex].Shape.Actions
+	return nextActionFromIndex(c.Shapes.M[c.Context.URLRegex].Shape.Actions, ind)
+}
 
-	if l := int64(len(actions)); l != 0 {
+// nextActionFromIndex returns the first action at or after ind that has a non zero count, if
+// there is one. The caller holds the locks that protect actions.
+func nextActionFromIndex(actions []Action, ind int64) *NextActionInfo {
+	l := int64(len(actions))
 
-		for ind < l && (actions[ind].getCount() == 0) {
-			ind++
-		}
+	for ind < l && (actions[ind].getCount() == 0) {
+		ind++
+	}
 
-		if ind >= l {
-			return &NextActionInfo{
-				ActionNext: false,
-			}
-		}
+	if ind >= l {
 		return &NextActionInfo{
-			ActionNext: true,
-			Index:      ind,
-			ByteOffset: actions[ind].getByte(),
+			ActionNext: false,
 		}
 	}
 	return &NextActionInfo{
-		ActionNext: false,
+		ActionNext: true,
+		Index:      ind,
+		ByteOffset: actions[ind].getByte(),
 	}
 }
 
